@@ -30,6 +30,7 @@ mod vary;
 mod rect;
 mod stats;
 mod meshb;
+mod bufclone;
 mod vecalg;
 
 use std::io::{BufRead, BufWriter, Write};
@@ -92,6 +93,7 @@ fn subsystem(name: &str) -> Option<(GenFn, ExecFn)> {
         "rect" => (rect::gen, rect::exec),
         "stats" => (stats::gen, stats::exec),
         "meshb" => (meshb::gen, meshb::exec),
+        "bufclone" => (bufclone::gen, bufclone::exec),
         "vecalg" => (vecalg::gen, vecalg::exec),
         _ => return None,
     })
